@@ -148,7 +148,7 @@ func usesValue(call *ssa.Call, v ssa.Value) bool {
 }
 
 func checkC14(c *Ctx) {
-	c.explainf("C14 decides that the bucket map, the key-order list and the key count of a hash are written only by the set/delete/reorder/clone routines and the constructor; that in the set routine the count increment and the order append happen on exactly the paths that add a new pair (guarded by bucket-missing or by no-match-found) and never on the replace path; that in the delete routine the count decrement, the bucket update and the removal from the order list happen only on the path where the key matched; and that set, get and delete all accept a pair exactly when Compare returned no error and 0. It does not decide agreement with an ordered-map model over operation histories.")
+	c.explainf("C14 decides that the bucket map, the key-order list and the key count of a hash are written only by the set/delete/reorder/clone routines and the constructor; that in the set routine the count increment and the order append happen on exactly the paths that add a new pair (guarded by bucket-missing or by no-match-found) and never on the replace path; that in the delete routine the count decrement, the bucket update and the removal from the order list happen only on the path where the key matched; and that set, get and delete all accept a pair exactly when Compare returned no error and 0. Symbol keys are matched by number (C14-SYM) and no hash is given the order list or buckets of another hash (C14-SHARE). It does not decide agreement with an ordered-map model over operation histories.")
 	Map := c.mustField("C14-WM", "SexpHash", "Map")
 	KeyOrder := c.mustField("C14-WM", "SexpHash", "KeyOrder")
 	NumKeys := c.mustField("C14-WM", "SexpHash", "NumKeys")
